@@ -185,11 +185,12 @@ namespace {
       const int n = int(plan.range(2, thorough ? 16 : 12));
       const bool with_faults = faults.chance(600);
       std::vector<std::pair<int, int>> existing; // (dir, file) written so far
+      int n_snaps = 0;
       for (int i = 0; i < n; ++i) {
         J op = J::object();
         int f = int(plan.below(5));
         int d = int(plan.below(3));
-        const int k = int(plan.below(i < 3 ? 3 : 12));
+        const int k = int(plan.below(i < 3 ? 3 : 14));
         if (k >= 3 && !existing.empty() && plan.chance(850)) {
           // most operations name a file that exists somewhere (possibly outside the search path)
           const auto &e = existing[size_t(plan.below(existing.size()))];
@@ -205,6 +206,15 @@ namespace {
           existing.emplace_back(d, int(op.at("f").num()));
         } else if (k == 3) {
           op["k"] = J("delete");
+        } else if (k >= 12) {
+          // the host takes a snapshot of the engine state / goes back to one: the used-file records go back with it,
+          // a file used since then is evaluated again by the next use()
+          op["k"] = J(k == 12 || n_snaps == 0 ? "snap" : "restore");
+          if (op.at("k").str() == "snap") {
+            ++n_snaps;
+          } else {
+            op["i"] = J(int(plan.below(uint64_t(n_snaps))));
+          }
         } else {
           static const char *apis[] = {"eval_file_cpp", "use_cpp", "use_script", "eval_file_script", "use_cpp", "use_script", "call_fn", "eval_file_cpp", "use_abs", "eval_file_script_abs"};
           op["k"] = J(apis[plan.below(10)]);
@@ -297,6 +307,8 @@ namespace {
                   }),
                   "eval_file");
 
+      std::vector<Engine::State> real_snaps, twin_snaps;
+      std::vector<std::set<std::string>> used_snaps;
       uint64_t h = 0xcbf29ce484222325ULL;
       const J &ops = plan.at("ops");
       for (size_t i = 0; i < ops.size(); ++i) {
@@ -317,6 +329,22 @@ namespace {
         if (k == "delete") {
           ::unlink(path.c_str());
           disk.erase(path);
+          continue;
+        }
+        if (k == "snap") {
+          real_snaps.push_back(real.e->get_state());
+          twin_snaps.push_back(twin.e->get_state());
+          used_snaps.push_back(used);
+          continue;
+        }
+        if (k == "restore") {
+          if (!real_snaps.empty()) {
+            const size_t si = size_t(op.at("i").num()) % real_snaps.size();
+            real.e->set_state(real_snaps[si]);
+            twin.e->set_state(twin_snaps[si]);
+            used = used_snaps[si];
+            r.counters["fault_state_restored_between_file_operations"] += 1;
+          }
           continue;
         }
         // faults of this operation
